@@ -280,7 +280,10 @@ c.sig_props = ["C06"]
 c.ens("capture-result-names-the-event", lambda S_: And(
     S_.is_fresh(S_.new.lget(S_.result, 0), "WatchResult"),
     S_.new.f(S_.new.lget(S_.result, 0), "_expression") == S_.a.name,
-    S_.new.f(S_.new.lget(S_.result, 0), "WatchResult.__source") == VStr("CAPTURE")), props=["C02", "C15"])
+    S_.new.f(S_.new.lget(S_.result, 0), "WatchResult.__source") == VStr("CAPTURE"),
+    # the variables collected for it: a table of its own (never the snapshot's)
+    S_.created_during_call(S_.new.lget(S_.result, 1)), S_.new.typeof(S_.new.lget(S_.result, 1)) == S_.cid("dict")),
+    props=["C02", "C15"])
 c.exit_check(lambda S_, kind: [("captured-value-is-the-value-given", "LOG", And(
     z3.BoolVal(len(S_.calls("VariableSetProcessor.process_variable")) == 1),
     S_.calls("VariableSetProcessor.process_variable")[0].args[2] == S_.a.variable), ["C02", "C15"])]
